@@ -279,6 +279,7 @@ Section CoverRun.
     | Deliver (MReq q _) => negb (q =? p)
     | Deliver MCancel => false
     | MAssign _ _ => false
+    | Wild q _ => negb (q =? p)       (* unrestricted stragglers on the watched partition: known finding F11 *)
     | KErr code wm lows => wm || negb ((code =? 1) || (code =? 2)) || (low_of lows p <=? LB)
     | _ => true
     end.
@@ -323,13 +324,20 @@ Section CoverRun.
       + split; [unfold I1 in *; cbn [trk] in *; exact Ha|]. rewrite app_assoc. exact Hb.
   Qed.
 
+  (* a crash: the successor has read the compacted topic, which agrees with the tracker about p *)
+  Lemma inv_crash s em : Inv s em -> Inv (crash_state s) em.
+  Proof.
+    intros [H1 [H2 [H3 H4]]]. split; [|split; [intros a t' []|split; [exact I|reflexivity]]].
+    unfold I1 in *. cbn [crash_state trk]. unfold I4 in H4. rewrite !H4. exact H1.
+  Qed.
+
   Definition emp (out : rout) := emits_p p out.
 
   Lemma inv_rstep s em op : Inv s em -> ok_op op = true ->
     Inv (fst (rstep cfg s op)) (em ++ emp (snd (rstep cfg s op))).
   Proof.
     intros HI Hok. pose proof HI as [H1 [H2 [H3 H4]]].
-    destruct op as [q k|q d|q d|q o|q o|code wm lows| |ps| |q f tt|cerr pcs|m|]; cbn [rstep ok_op] in *.
+    destruct op as [q k|q d|q d|q o|q o|code wm lows| |ps| |q f tt|cerr pcs|m| |q|q d]; cbn [rstep ok_op] in *.
     - apply inv_pump. exact HI.
     - destruct (Z.eq_dec q p) as [->|Hq].
       + apply inv_rec_p; [exact HI|]. intros n Hn. unfold stale_offset. rewrite Hn. lia.
@@ -360,8 +368,18 @@ Section CoverRun.
       apply Inv_mono. assert (Hq : q <> p) by lia.
       assert (Hsn : snap q (trk s) {| ts := receive (trk s) q rs; terr := false; tout := [(q, rs)] |}) by (right; exists rs; split; reflexivity).
       exact (inv_trk_other p f0 t LB s em q _ Hq Hsn HI).
-    - cbn [fst snd]. apply Inv_mono. split; [|split; [intros a t' []|split; [exact I|reflexivity]]].
-      unfold I1 in *. cbn [trk]. unfold I4 in H4. rewrite !H4. exact H1.
+    - cbn [fst snd]. apply Inv_mono. apply inv_crash. exact HI.
+    - unfold rec_crash. destruct (pget q (cli s)) as [n|] eqn:En; [|cbn [fst snd]; apply Inv_mono; apply inv_crash; exact HI].
+      destruct (would_send s q n); [cbn [fst snd]; apply Inv_mono; apply inv_crash; exact HI|].
+      destruct (Z.eq_dec q p) as [->|Hq].
+      + destruct (inv_rec_p cfg p f0 t LB s em n HI) as [HI' _]; [intros n' Hn'; rewrite En in Hn'; inversion Hn'; lia|].
+        destruct (rec_step cfg s p n) as [s1 out]. cbn [fst snd] in *. apply inv_crash. exact HI'.
+      + destruct (inv_rec_other cfg p f0 t LB s em q n Hq HI) as [Ha Hb].
+        destruct (rec_step cfg s q n) as [s1 out]. cbn [fst snd] in *. unfold emp. rewrite Hb, app_nil_r. apply inv_crash. exact Ha.
+    - assert (Hq : q <> p) by lia. unfold wild_step.
+      destruct (pget q (cli s)) as [n|]; [|cbn [fst snd]; apply Inv_mono; exact HI].
+      destruct (pget q (active s)); [|cbn [fst snd]; apply Inv_mono; exact HI].
+      destruct (inv_rec_other cfg p f0 t LB s em q (n + 1 + Z.abs d) Hq HI) as [Ha Hb]. unfold emp. rewrite Hb, app_nil_r. exact Ha.
   Qed.
 
   (* all recovery events of p emitted during a run *)
